@@ -1,13 +1,17 @@
 """C22 -- see harness/subj.py (check_replay, oracle_replay, run_replay, run_replay_sync) and
-coq/theories/Props/C22.v.  Two scheduler modes, both compared with Subjects/ReplaySched.v:
+coq/theories/Props/C22.v.  Three drain disciplines, all compared with Subjects/ReplaySched.v:
  (a) the DEFAULT scheduler (CurrentThreadScheduler trampoline): nothing is drained by the driver;
      a ScheduledObserver drain scheduled from a top-level call runs inline -- between the
      per-observer steps of the emission -- and one scheduled from inside an observer callback is
      queued; exercised with re-entrant call trees (observers emitting / completing / failing /
      unsubscribing / subscribing / disposing from inside their callbacks), exhaustively for two
      live subscribers;
- (b) a real VirtualTimeScheduler whose clock the history controls (('adv', d) = scheduler.sleep(d)),
-     drained by the driver with VirtualTimeScheduler.start() after every top-level call.
+ (b) a real VirtualTimeScheduler or HistoricalScheduler whose clock the history controls (('adv', d) =
+     scheduler.sleep(d ticks); one tick = 1, 0.5 or 0.25 s), drained by the driver with start() after every
+     top-level call; the window is handed over as int / float / timedelta / fractional float or timedelta;
+ (c) the same with EXPLICIT drains: ('drain',) is a history operation (Subjects/ReplaySched.v XDrain), so a
+     top-level unsubscribe / emission / subscribe / clock advance happens while replay items are still queued.
+Error payloads include a falsy exception object; subscribers use the four full forms of C20.
 Independent oracle: per subscriber, what it received is a prefix of [retained values at its
 subscription (last buffer_size values with age <= window), terminal if any] ++ [later
 notifications in call order], and all of it unless it unsubscribed."""
